@@ -53,7 +53,7 @@ enum Act {
   Sub { u: usize, p: PRef, reacts: Arc<Vec<(usize, Vec<ActN>)>> },
   Unsub(usize),
   IsSub(usize),
-  Post { s: usize, t: Sx, acts: Arc<Vec<ActN>> },
+  Post { s: usize, t: Sx, acts: Arc<Vec<ActN>>, guarded: bool },
   Abort(usize),
   Sleep(u64),
   Yield,
@@ -212,7 +212,13 @@ fn parse_act(x: &Sx, c: &Counts) -> ActN {
     }
     "post" => {
       need(3);
-      Act::Post { s: parse_ref(&l[1], c.scheds, "scheduler"), t: check_atom(&l[2]), acts: Arc::new(parse_acts(&l[3..], c)) }
+      Act::Post { s: parse_ref(&l[1], c.scheds, "scheduler"), t: check_atom(&l[2]), acts: Arc::new(parse_acts(&l[3..], c)), guarded: false }
+    }
+    // a task with an empty body whose closure owns a guard: the actions run in the guard's DESTRUCTOR, i.e. when the scheduler lets
+    // go of the last copy of the task (after it has run, or when it is discarded)
+    "post-guarded" => {
+      need(3);
+      Act::Post { s: parse_ref(&l[1], c.scheds, "scheduler"), t: check_atom(&l[2]), acts: Arc::new(parse_acts(&l[3..], c)), guarded: true }
     }
     "abort" => {
       need(2);
@@ -605,6 +611,23 @@ fn child_subscribe(cx: &Cx, inner: Observable<'static, V>) {
   );
 }
 
+/// owned by a `post-guarded` task closure: its destructor runs the actions on whichever thread drops the last copy of the task
+struct DropGuard {
+  cx: Cx,
+  t: Sx,
+  acts: Arc<Vec<ActN>>,
+}
+impl Drop for DropGuard {
+  fn drop(&mut self) {
+    if self.cx.objs.upgrade().is_none() {
+      return; // the run is over (a discarded task released together with the objects)
+    }
+    self.cx.rec.ev("guard-drop", vec![self.t.clone()]);
+    exec_all(&self.cx, &self.acts);
+    self.cx.rec.ev("guard-end", vec![self.t.clone()]);
+  }
+}
+
 fn exec(cx: &Cx, a: &ActN) {
   let o = cx.objs();
   let rec = &cx.rec;
@@ -667,13 +690,16 @@ fn exec(cx: &Cx, a: &ActN) {
       let r = s.map(|s| s.is_subscribed()).unwrap_or(false);
       rec.ev("issub", vec![atom(u), b(r)]);
     }
-    Act::Post { s, t, acts } => {
+    Act::Post { s, t, acts, guarded } => {
       let (cx2, t2, acts2) = (cx.clone(), t.clone(), acts.clone());
       let tok = Arc::new(CTok::new()); // lives as long as any copy of the task closure
+      let guard = if *guarded { Some(Arc::new(DropGuard { cx: cx.clone(), t: t.clone(), acts: acts.clone() })) } else { None };
       let task = move || {
         tok.touch();
         cx2.rec.ev("task-start", vec![t2.clone()]);
-        exec_all(&cx2, &acts2);
+        if guard.is_none() {
+          exec_all(&cx2, &acts2);
+        }
         cx2.rec.ev("task-end", vec![t2.clone()]);
       };
       let sch = o.scheds[*s].lock().unwrap().clone();
